@@ -1,2 +1,9 @@
 import Sio.Props.C16
-#print axioms Sio.C16.placeholder_stub
+#print axioms Sio.C16.read_your_write
+#print axioms Sio.C16.read_stable
+#print axioms Sio.C16.private_
+#print axioms Sio.C16.private_get
+#print axioms Sio.C16.context_manager
+#print axioms Sio.C16.fresh_witness
+#print axioms Sio.C16.fresh_partial
+#print axioms Sio.C16.fresh_new_transport
